@@ -46,6 +46,7 @@ BASE = {
     'Jy': _mk('Jy', F(1, 10 ** 26), kg=1, s=-2),
     'mJy': _mk('mJy', F(1, 10 ** 29), kg=1, s=-2),
     'arcsec': _mk('arcsec', Sc(ARCSEC_RAD), rad=1),
+    'arcmin': _mk('arcmin', Sc(ARCSEC_RAD) * 60, rad=1),
     'rad': _mk('rad', 1, rad=1),
     'dimensionless_unscaled': _mk('', 1),
     'K': _mk('K', 1, K=1),
